@@ -36,7 +36,7 @@ func genStrategy(r *rand.Rand, o histOpts, canary bool, defMode string) Strategy
 	st := StrategyDef{
 		MaxUnavailable:     pick(r, "", "1", "2", "3", "50%", "100%", "25%"),
 		MaxPodSchedulerFail: pick(r, "", "", "1", "50%"),
-		SlowStartInterval:  pick(r, "1s", "10s", "1m", "1m", ""),
+		SlowStartInterval:  pick(r, "1s", "10s", "1m", "1m", "", "1500ms"),
 		SlowStartIncrease:  pick(r, "", "1", "2", "5", "50%"),
 		ReconcileFrequency: pick(r, "", "1s", "10s", "10s", "1m"),
 	}
@@ -1181,7 +1181,7 @@ func genC04(r *rand.Rand, tier string, idx int) *World {
 	}
 	w := genHistory(r, tier, o)
 	w.Extra["c02prop"] = "C04"
-	w.Extra["c04end"] = pick(r, "hold", "hold", "promote", "revert")
+	w.Extra["c04end"] = pick(r, "hold", "hold", "promote", "revert", "promote-dirty")
 	w.Cfg.StrategyEdits = chance(r, 0.5)
 	if c := w.EDS[0].Strategy.Canary; c != nil && chance(r, 0.2) {
 		c.Replicas = pick(r, "0", "0%") // a canary that owns no node
@@ -1289,6 +1289,33 @@ func bodyC04(s *Sim) {
 			s.Stats.NonVacuous["C04.reverted"]++
 		}
 	}
+	if s.W.Extra["c04end"] == "promote-dirty" && e != nil && e.Spec.Strategy.Canary != nil && e.Status.Canary != nil {
+		// The canary is validated while one of its nodes runs a surplus pod of it; the first syncs of the
+		// promoted replica set fail to delete that pod. The labels of the former canary pods must go all
+		// the same (the window for that is short).
+		key := types.NamespacedName{Namespace: def.NS, Name: def.Name}
+		cr := s.Store.GetERS(def.NS, e.Status.Canary.ReplicaSet)
+		if cr != nil && !ersCondTrue(&cr.Status, edsv1.ConditionTypeCanaryFailed) && len(e.Status.Canary.Nodes) > 0 {
+			for _, k := range []string{edsv1.ExtendedDaemonSetCanaryPausedAnnotationKey, edsv1.ExtendedDaemonSetRolloutFrozenAnnotationKey, edsv1.ExtendedDaemonSetRollingUpdatePausedAnnotationKey} {
+				s.userAnnotate(def.NS, def.Name, k, "-")
+			}
+			s.Round(r)
+			s.Round(r)
+			if n := s.Store.GetNode(e.Status.Canary.Nodes[0]); n != nil {
+				s.injectPod(cr, n, PodState{Kind: "ready", AgeSec: 30, Suffix: "-dup"})
+			}
+			s.RunCLI("canary-validate", key)
+			s.RunTask(CtrlEDS, key)
+			ck := types.NamespacedName{Namespace: def.NS, Name: cr.Name}
+			for i := 0; i < 3; i++ {
+				_, fired := s.RunTaskWithFault(CtrlERS, ck, "reject", func(c *Call) bool { return c.Verb == "delete" && c.Kind == KPod })
+				if fired {
+					s.Stats.NonVacuous["C04.promoted-with-failing-cleanup"]++
+				}
+				s.Advance(11 * time.Second)
+			}
+		}
+	}
 	s.Quiesce()
 	// after promotion no pod of the active replica set carries the canary label
 	e = s.Store.GetEDS(def.NS, def.Name)
@@ -1393,6 +1420,35 @@ func bodyC05(s *Sim) {
 				}
 				break
 			}
+		}
+	}
+	// two canary pods restarted at different times, the one on the canary node listed first last
+	if e := s.Store.GetEDS(def.NS, def.Name); e != nil && e.Status.Canary != nil && len(e.Status.Canary.Nodes) >= 2 && r.IntN(2) == 0 {
+		var ps []*corev1.Pod
+		for _, n := range e.Status.Canary.Nodes {
+			for _, p := range s.Store.Pods() {
+				if isDaemonPod(p, def.NS, def.Name) && podNode(p) == n && p.Labels[edsv1.ExtendedDaemonSetReplicaSetNameLabelKey] == e.Status.Canary.ReplicaSet && !terminating(p) {
+					ps = append(ps, p)
+					break
+				}
+			}
+		}
+		if len(ps) >= 2 {
+			for i := len(ps) - 1; i >= 0; i-- {
+				s.kSettle(ps[i])
+				if pp := s.Store.GetPod(ps[i].Namespace, ps[i].Name); pp != nil {
+					s.kRestart(pp, "Error")
+					s.Advance(time.Duration(20+r.IntN(60)) * time.Second)
+				}
+			}
+			for _, p := range ps {
+				if pp := s.Store.GetPod(p.Namespace, p.Name); pp != nil {
+					s.kSettle(pp)
+				}
+			}
+			s.Stats.NonVacuous["C05.two-restarted-canary-pods"]++
+			s.Advance(s.maxFrequency() + time.Second)
+			s.RunTask(CtrlERS, types.NamespacedName{Namespace: def.NS, Name: e.Status.Canary.ReplicaSet})
 		}
 	}
 	// pass the end of the duration with whatever pause/validation/failure state the chaos left
